@@ -173,9 +173,24 @@ Proof. vm_compute. split; auto. Qed.
 Definition ex_footer : list (str * template) :=
   [(s "footer", [NLeaf (LText (s "Contact: ")); NLeaf (LVar (s "email"))])].
 Definition ex_page : template := [NLeaf (LVar (s "title")); NLeaf (LText (s " / ")); NLeaf (LInc (s "footer"))].
+Definition res_outcome (r : list (str * template) * result) : option outcome :=
+  match snd r with RRender _ _ o _ => Some o | _ => None end.
 Example ex_history :
-  map fst (run_calls (mkInstance ex_footer true 0)
-             [(ex_page, [(s "title", VStr (s "Report"))]);
-              (ex_page, [(s "title", VStr (s "Report")); (s "email", VStr (s "ops@example.org"))])]) =
-  [Err (EMissing (s "email")); Ok (s "Report / Contact: ops@example.org") []].
+  map res_outcome
+      (run_ops (mkInstance ex_footer true 0)
+         [OpRender ex_page [(s "title", VStr (s "Report"))];
+          OpRender ex_page [(s "title", VStr (s "Report")); (s "email", VStr (s "ops@example.org"))];
+          OpRegister (s "footer") [NLeaf (LText (s "(c) 2026"))];
+          OpTranslate (s "nope") [];
+          OpRender ex_page [(s "title", VStr (s "Report"))]]) =
+  [Some (Err (EMissing (s "email"))); Some (Ok (s "Report / Contact: ops@example.org") []);
+   None; None; Some (Ok (s "Report / (c) 2026") [])].
+Proof. vm_compute. reflexivity. Qed.
+
+(* items that compare equal in Python but print differently: 1, True, 1.0 *)
+Example ex_equal_items :
+  impl_text (render_impl false []
+               [(s "xs", VList [IInt 1; IBool true; IOpaque (s "1.0") (s "1.0"); INone])]
+               (print [NEach (s " ") (s "xs") [LText (s "["); LDot; LText (s "]")]])) =
+  Some (s "[1][True][1.0][None]").
 Proof. vm_compute. reflexivity. Qed.
